@@ -401,7 +401,11 @@ def r3_exponent_algebra(ctx):
         ctx.check(ok, rel, q, "exponents: present key => old op exp, absent key => op exp", detail=u,
                   expected={"present": f"baseunits[unit] {op} exp", "absent": f"{op}exp"})
         pre = [norm(s) for s in fn.body]
-        ctx.form("baseunits = dict(self.baseunits)" in pre, rel, q, "works on a copy of the left operand's exponents")
+        if "baseunits = self.baseunits" in pre:
+            ctx.violated(rel, q, "works on a copy of the left operand's exponents", detail="baseunits = self.baseunits: the loop below writes the result into the operand's own table",
+                         expected="baseunits = dict(self.baseunits)")
+        else:
+            ctx.form("baseunits = dict(self.baseunits)" in pre, rel, q, "works on a copy of the left operand's exponents")
         # no path hands back an operand without merging, unless its guard says the other operand has no units at all
         from ..flowexpr import paths as _paths
         NO_UNITS = {"other.nobase": True, "not other.baseunits": True, "len(other.baseunits) == 0": True, "other.baseunits": False, "len(other.baseunits)": False,
